@@ -190,7 +190,7 @@ def run(ctx):  # noqa: C901, PLR0912
     # trailing-character loops: every loop that shortens the number must re-check that a point is still present
     ok = True
     n_loops = 0
-    for w in [n for n in walk_no_nested(tx.node) if isinstance(n, ast.While)]:
+    for w in [n for n in walk_no_nested(tx.node) if isinstance(n, ast.While) and not getattr(n, '_inline_wrapper', False)]:
         cuts = [x for x in ast.walk(w) if isinstance(x, ast.Assign) and isinstance(x.value, ast.Subscript)
                 and isinstance(x.value.slice, ast.Slice) and unparse(x.value.slice) == ':-1']
         if cuts:
